@@ -13,7 +13,9 @@ META = {
         "payload of its durability field; (4) Writer::rotate syncs the old journal (constant SyncAll) before creating the "
         "next file and fsyncs the directory afterwards; Writer::create_new/from_file pre-allocate then sync_all; journal "
         "truncation syncs; (5) Journal::drop persists with SyncAll; (6) fsync_directory reaches File::sync_all on the "
-        "directory handle; database creation syncs the version marker and both directories."),
+        "directory handle; database creation syncs the version marker and both directories; (7) every append primitive "
+        "marks the BufWriter dirty before its first buffered write and the flag is cleared only after a successful flush, so "
+        "a persist after ANY kind of append (incl. clear) flushes before it syncs."),
     "not_decided": [
         "that the syscall sequence suffices at every later crash point (needs a power-loss adversary over executions)",
         "file-system / device semantics of fsync and fdatasync",
@@ -91,6 +93,10 @@ def run(ctx):
         for b in R.call_blocks(jp, (R.PERSIST,)):
             rf = A.result_flow(jp, b)
             ctx.ob("R-C09.2", jp, "writer-persist-result-returned", rf.returned and not rf.swallowed, "Journal::persist returns Writer::persist's result" if rf.returned else "Journal::persist drops the result")
+
+    # ---- R-C09.7 what persist syncs is what was appended: dirty-flag discipline (shared with R-C02.3)
+    from . import C02
+    C02.dirty_flag_rules(ctx, "R-C09.7")
 
     # ---- R-C09.3 mode forwarded unchanged
     fw = [("db::Database::persist", R.JOURNAL_PERSIST), (R.JOURNAL_PERSIST, R.PERSIST),
